@@ -16,6 +16,7 @@ import (
 type tcase struct {
 	body []byte
 	kind string
+	mode string // "" | "no-ctype" | "text-plain" | "chunked"
 }
 
 type gen struct {
@@ -37,14 +38,14 @@ func (g *gen) add(kind string, body []byte) {
 		return
 	}
 	g.seen[k] = true
-	g.cases = append(g.cases, tcase{append([]byte{}, body...), kind})
+	g.cases = append(g.cases, tcase{body: append([]byte{}, body...), kind: kind})
 }
 func (g *gen) adds(kind, body string) { g.add(kind, []byte(body)) }
 
 // methods understood by the scripted backend (main.go script / RunC16.v script must agree)
 var backendMethods = []string{
 	"t_result_str", "t_result_num", "t_result_obj", "t_result_arr", "t_result_null", "t_result_bool", "t_noresult",
-	"t_rpcerr", "t_rpcerr_500", "t_http500_empty", "t_http502_text", "t_drop", "t_rawnull",
+	"t_rpcerr", "t_rpcerr_500", "t_http500_empty", "t_http502_text", "t_drop", "t_rawnull", "t_slow_err",
 	"eth_blockNumber", "eth_call", "", "net_version", "méthode", "eth_sendRawTransaction", "eth_getTransactionCount",
 }
 
@@ -315,6 +316,22 @@ func (g *gen) fixed(thorough bool) {
 	for _, m := range backendMethods {
 		g.adds("backend-behaviour", `{"jsonrpc":"2.0","id":"b","method":"`+m+`","params":[1,"two",{"three":3}]}`)
 		g.adds("backend-behaviour", `[`+okReq+`,{"jsonrpc":"2.0","id":"b","method":"`+m+`"},{"id":3,"method":"personal_accounts"}]`)
+	}
+	// --- members that finish in a forced order (the reply must wait for the slowest goroutine)
+	for _, s := range []string{
+		`[{"id":1,"method":"t_slow"},{"id":2,"method":"eth_accounts"}]`, `[{"id":1,"method":"eth_accounts"},{"id":2,"method":"t_slow"}]`,
+		`[{"id":1,"method":"eth_accounts"},{"id":2,"method":"t_slow"},{"id":3,"method":"eth_accounts"},{"id":4,"method":"t_slow_err"},null]`,
+		`[{"id":1,"method":"t_slow_err"},{"id":2,"method":"t_result_str"},{"id":3,"method":"t_slow"}]`, `[{"id":1,"method":"t_slow"}]`, `{"id":1,"method":"t_slow_err"}`,
+		`[null,{"id":2,"method":"t_slow"}]`, `[{"id":2,"method":"t_slow"},null]`, `[{"method":"t_slow"},{"id":2,"method":"t_slow"},{"id":3}]`,
+	} {
+		g.adds("batch-completion-order", s)
+	}
+	// --- the same bytes framed differently by the client
+	for _, mode := range []string{"no-ctype", "text-plain", "chunked"} {
+		for _, s := range []string{okReq, `[` + okReq + `,null]`, `[null]`, ``, `{`, `[1]`, strings.Repeat(" ", 5000) + `[` + okReq + `]`,
+			`{"id":1,"method":"eth_sendTransaction","params":[{"from":"zz"}]}`, `{"id":1,"method":"t_result_obj","params":["` + strings.Repeat("x", 100000) + `"]}`} {
+			g.cases = append(g.cases, tcase{body: []byte(s), kind: "transport-variant", mode: mode})
+		}
 	}
 	// --- eth_sendTransaction validation paths (parameter count, decode, from, nonce, signing)
 	nf := g.keys[nonceFailKey].Hex()
